@@ -17,6 +17,8 @@ from props import spacelib as sl
 KEY_BOOL_WIRE = 'bool-given-for-categorical-parameter-stored-as-number'
 KEY_BASE_CLASH = 'plain-parameter-named-like-indexed-base-is-overwritten'
 KEY_GRANDCHILD = 'grandchildren-dropped-by-study-spec-proto'
+KEY_TWIN = 'inactive-child-of-same-named-config-accepted'
+CFG = {}
 
 
 def _try(f):
@@ -93,7 +95,22 @@ def gen_space(rng, depth, flat=False):
           twin['name'] = sl.created_name(ch[0][1])
           ch.append(([free[0]], twin))
         break
+  for n in nodes:
+    _no_numeral_categories(n)
   return nodes
+
+
+def _no_numeral_categories(n):
+  """as_float/as_int parse numeral strings ('3', '3.0'); the model does not (assumption): a categorical
+  config that factory() was given a numeric external type must not have numeral categories"""
+  if n['call'] == 'factory' and n.get('ext') in ('INTEGER', 'FLOAT') and n.get('feasible') and isinstance(n['feasible'][0], str):
+    ren = {'3': 'n3', '3.0': 'n3.0'}
+    n['feasible'] = [ren.get(x, x) for x in n['feasible']]
+    if n.get('default') in ren:
+      n['default'] = ren[n['default']]
+    n['children'] = [([ren.get(v, v) for v in vals], ch) for vals, ch in n.get('children', [])]
+  for _, ch in n.get('children', []):
+    _no_numeral_categories(ch)
 
 
 def stored_matches(key, value):
@@ -242,11 +259,15 @@ def judge_case(c, where, dumped, a, real, m_judge, extra):
   bool_for_cat = any(isinstance(a.get(d['name']), bool) and d['type'] == 'CATEGORICAL' for d in sl.all_pcs(dumped))
   if not m_judge['uniq']:
     return      # two simultaneously active parameters share a name: a trial (a dict) cannot carry both; outside the property
+  if not m_judge['extOK']:
+    return      # factory() accepts an external type that makes no sense for the parameter (BOOLEAN on a float, ...): tie only
   if real[0] == 'ok':
     why = m_judge['why']
     if why is not None:
       if why == 'plain-name-equals-indexed-base-name':
         key = KEY_BASE_CLASH
+      elif why.startswith('unknown-or-inactive') and not m_judge['treeNamesUnique']:
+        key = KEY_TWIN
       elif bool_for_cat:
         key = KEY_BOOL_WIRE
       else:
@@ -300,8 +321,8 @@ def presentation_stage(c):
       if {k: sl.tag(v) for k, v in back.items()} != {k: sl.tag(v) for k, v in stored.items()}:
         c.tie_break('wire (ParameterValueConverter)', {'trial': {k: sl.tag(v) for k, v in a.items()}},
                     {k: sl.tag(v) for k, v in back.items()}, {k: sl.tag(v) for k, v in stored.items()})
-      reqs_w.append({'op': 'present', 'wire': True, 'pcs': dumped, 'trial': sl.assign_json(a)})
-      reqs_raw.append({'op': 'present', 'wire': False, 'pcs': dumped, 'trial': sl.assign_json(a)})
+      reqs_w.append(dict(CFG, op='present', wire=True, pcs=dumped, trial=sl.assign_json(a)))
+      reqs_raw.append(dict(CFG, op='present', wire=False, pcs=dumped, trial=sl.assign_json(a)))
       reqs_j.append({'op': 'judge', 'pcs': dumped, 'stored': sl.assign_json(stored),
                      'out': enc_out(real_w[1]) if real_w[0] == 'ok' else None})
       meta.append((dumped, a, kind, real_w, real_raw))
@@ -363,21 +384,24 @@ def client_stage(c):
         # suggested trials (the algorithm chooses the values)
         sug = _try(lambda: study.suggest(count=2, client_id='w'))
         if sug[0] == 'ok':
+          mine = set(h.id for h, _, _ in handles)
           for t in sug[1]:
-            handles.append((t, None, 'suggested'))
+            if t.id not in mine:      # suggest() first hands out the REQUESTED trials created above
+              handles.append((t, None, 'suggested'))
         for t, a, kind in handles:
           stored_trial = t.materialize().parameters.as_dict()
           if a is None:
             a = dict(stored_trial)
           real = _try(lambda: dict(t.parameters))
           c.traces += 1
-          reqs_m.append({'op': 'present', 'wire': True, 'pcs': server_space, 'trial': sl.assign_json(a)})
+          reqs_m.append(dict(CFG, op='present', wire=True, pcs=server_space, trial=sl.assign_json(a)))
           reqs_j.append({'op': 'judge', 'pcs': dumped, 'stored': sl.assign_json({k: wire_py(v) for k, v in a.items()}),
                          'out': enc_out(real[1]) if real[0] == 'ok' else None})
           stored_ok = {k: sl.tag(v) for k, v in stored_trial.items()} == {k: sl.tag(wire_py(v)) for k, v in a.items()}
           meta.append((bname, dumped, a, kind, real, space_changed, stored_ok))
   finally:
-    vizier_client.environment_variables.servicer_kwargs = saved
+    # never leave the default (a SQLite FILE inside the repo tree, constants.SQL_LOCAL_URL) behind
+    vizier_client.environment_variables.servicer_kwargs = dict(saved, database_url=saved.get('database_url'))
     vizier_client._create_local_vizier_servicer.cache_clear()     # pylint: disable=protected-access
   mm = c.lean('C17', reqs_m)
   mj = c.lean('C17', reqs_j)
@@ -440,6 +464,20 @@ def witnesses(c):
   if c.flags['plainOverwrittenByIndexedBase']:
     c.prop_fail(KEY_BASE_CLASH, "trial {'m': 0.5, 'm[0]': 2} is presented as %r: the value of m is lost without an error" % (r[1],),
                 {'space': "add_float_param('m',0,1); add_int_param('m',0,3,index=0)", 'trial': {'m': 0.5, 'm[0]': 2}})
+  # (2b) the same name under two parent values, only one of the two configs has a child
+  ss = pcm.SearchSpace()
+  ss.root.add_categorical_param('model', ['a', 'b'])
+  ss.root.select('model', ['a']).add_discrete_param('lr', [1, 2])
+  ss.root.select('model', ['b']).add_discrete_param('lr', [1, 2])
+  ss.root.select('model', ['a']).select('lr', [1]).add_float_param('mom', 0, 1)
+  sc = study_config_of(ss)
+  r = _try(lambda: sc.trial_parameters(pcv.TrialConverter.to_proto(vz.Trial(parameters={'model': 'b', 'lr': 1, 'mom': 0.5}))))
+  by_name = (r[0] == 'ok' and 'mom' in r[1])
+  c.flags['parentByName'] = by_name
+  CFG['parentByName'] = by_name
+  if by_name:
+    c.prop_fail(KEY_TWIN, "trial {'model':'b','lr':1,'mom':0.5} is presented as %r although mom exists only under model='a', lr=1" % (r[1],),
+                {'space': "model in {a,b}; lr in {1,2} under both; mom under (model=a, lr=1) only", 'trial': {'model': 'b', 'lr': 1, 'mom': 0.5}})
   # (3) grandchildren through the StudySpec proto
   ss = pcm.SearchSpace()
   ss.root.add_categorical_param('a', ['x', 'y'])
